@@ -373,6 +373,11 @@ func hookYield(kind int, key uint64) {
 			s.sleepUntil(s.firstSlot[key])
 		}
 	case verifhook.ResultSent:
+		if key == 1 && s.costRng.Intn(2) == 0 {
+			// (key 1: at the output seam, right after the bestmove line has been
+			// delivered; key 0: after the search has handed its result over)
+			return
+		}
 		s.InResultWindow = true
 		defer func() { s.InResultWindow = false }()
 		// the window between the result being visible to the controller and
